@@ -21,6 +21,7 @@ import (
 	"github.com/platinummonkey/go-concurrency-limits/strategy"
 
 	"verifharness/internal/inject"
+	"verifharness/internal/limgen"
 	"verifharness/internal/rt"
 )
 
@@ -102,7 +103,18 @@ func defaultLimiterCase(t *testing.T, idx int64, r *rand.Rand) {
 	cfg := rt.J{"limiter": "default", "window_size": windowSize, "min_window_ns": minW, "max_window_ns": maxW, "min_rtt_threshold_ns": thr}
 	rec := inject.NewScriptedLimit(100, func(n int) int { return 60 + (n*7)%40 })
 	st := strategy.NewSimpleStrategy(100)
-	dl, err := limiter.NewDefaultLimiter(rec, minW, maxW, thr, windowSize, st, limit.NoopLimitLogger{}, core.EmptyMetricRegistryInstance)
+	// the algorithm may sit behind the tracing decorator (with a debug-enabled logger in half of those cases): what it
+	// receives is still exactly the fold
+	var algo core.Limit = rec
+	if tr := r.IntN(4); tr < 2 {
+		var lg limit.Logger = limit.NoopLimitLogger{}
+		if tr == 0 {
+			lg = limgen.DebugLogger{}
+		}
+		algo = limit.NewTracedLimit(rec, lg)
+		rt.Count("default_limiter_cases_with_the_algorithm_behind_a_traced_limit", 1)
+	}
+	dl, err := limiter.NewDefaultLimiter(algo, minW, maxW, thr, windowSize, st, limit.NoopLimitLogger{}, core.EmptyMetricRegistryInstance)
 	if err != nil {
 		panic(err)
 	}
@@ -483,7 +495,16 @@ func windowedCase(idx int64, r *rand.Rand) {
 	thr := []int64{0, 1000, 1000000, 50000000}[r.IntN(4)]
 	cfg := rt.J{"limiter": "windowed", "window_size": windowSize, "min_window_ns": minW, "max_window_ns": maxW, "min_rtt_threshold_ns": thr}
 	rec := inject.NewScriptedLimit(20, func(n int) int { return 10 + n%15 })
-	w, err := limit.NewWindowedLimit("c09", minW, maxW, windowSize, thr, rec, nil)
+	var algo core.Limit = rec
+	if tr := r.IntN(4); tr < 2 {
+		var lg limit.Logger = limit.NoopLimitLogger{}
+		if tr == 0 {
+			lg = limgen.DebugLogger{}
+		}
+		algo = limit.NewTracedLimit(rec, lg)
+		rt.Count("windowed_cases_with_the_algorithm_behind_a_traced_limit", 1)
+	}
+	w, err := limit.NewWindowedLimit("c09", minW, maxW, windowSize, thr, algo, nil)
 	if err != nil {
 		panic(err)
 	}
@@ -660,12 +681,105 @@ func windowedConcurrent(idx int64, r *rand.Rand) {
 	rt.Distinct(fmt.Sprintf("wconc|%v|%d", cfg, len(got)))
 }
 
+// hookStrategy is a counting strategy of fixed capacity whose tokens call a hook right after they gave their unit back -
+// the instant at which another caller can be admitted on that very unit.
+type hookStrategy struct {
+	inner        *strategy.SimpleStrategy
+	afterRelease func()
+}
+
+type hookToken struct {
+	core.StrategyToken
+	s *hookStrategy
+}
+
+func (h *hookStrategy) TryAcquire(ctx context.Context) (core.StrategyToken, bool) {
+	t, ok := h.inner.TryAcquire(ctx)
+	if !ok {
+		return t, ok
+	}
+	return &hookToken{t, h}, true
+}
+func (h *hookStrategy) SetLimit(int) {} // fixed capacity whatever the scripted estimate says
+func (t *hookToken) Release() {
+	t.StrategyToken.Release()
+	if f := t.s.afterRelease; f != nil {
+		f()
+	}
+}
+
+// admissionInsideRelease: capacity L is fully used; every completion (success / ignore / drop) is followed, at the very
+// instant its unit is free again, by the admission of a newcomer.  The newcomer is admitted with exactly L requests in
+// flight (L-1 others and itself), so no window handed to the algorithm can report more than L - whatever the outcome
+// of the completion that made room was.
+func admissionInsideRelease(idx int64, r *rand.Rand) {
+	L := 1 + r.IntN(4)
+	rec := inject.NewScriptedLimit(L, func(int) int { return L })
+	hs := &hookStrategy{inner: strategy.NewSimpleStrategy(L)}
+	dl, err := limiter.NewDefaultLimiter(rec, 1, 1, 0, 10+r.IntN(3), hs, limit.NoopLimitLogger{}, core.EmptyMetricRegistryInstance)
+	if err != nil {
+		panic(err)
+	}
+	var held []core.Listener
+	for i := 0; i < L; i++ {
+		l, ok := dl.Acquire(context.Background())
+		if !ok {
+			panic("c09 admissionInsideRelease: set-up refused")
+		}
+		held = append(held, l)
+	}
+	var outcomes []string
+	seen := 0
+	for round := 0; round < 150+r.IntN(150); round++ {
+		j := r.IntN(len(held))
+		var newcomer core.Listener
+		var admitted bool
+		hs.afterRelease = func() {
+			hs.afterRelease = nil
+			newcomer, admitted = dl.Acquire(context.Background())
+		}
+		o := r.IntN(3)
+		time.Sleep(time.Duration(1+r.IntN(3)) * time.Microsecond)
+		switch o {
+		case 0:
+			held[j].OnSuccess()
+		case 1:
+			held[j].OnIgnore()
+		default:
+			held[j].OnDropped()
+		}
+		outcomes = append(outcomes, []string{"success", "ignore", "drop"}[o])
+		rt.Count("admissions_inside_a_release/after-"+outcomes[len(outcomes)-1], 1)
+		if !admitted {
+			rt.Violation("C09/default/newcomer-refused-on-the-unit-just-released", idx, rt.J{"capacity": L, "round": round, "completion": outcomes[len(outcomes)-1]})
+			return
+		}
+		held[j] = newcomer
+		for _, d := range rec.Samples()[seen:] {
+			seen++
+			rt.Count("windows_delivered_in_admission_inside_release_cases", 1)
+			if d.InFlight > L || d.InFlight < 1 {
+				rt.Violation("C09/default/window-reports-more-in-flight-than-were-ever-admitted", idx, rt.J{"capacity": L, "delivered": d,
+					"round": round, "last_completions": outcomes[max(0, len(outcomes)-14):]})
+				return
+			}
+		}
+	}
+	for _, l := range held {
+		l.OnIgnore()
+	}
+	rt.Count("admission_inside_release_cases", 1)
+	rt.Distinct(fmt.Sprintf("air|%d|%d|%v", L, seen, outcomes[:8]))
+}
+
 func TestCheck(t *testing.T) {
 	rt.Cases(6000, 600000, func(idx int64) {
 		r := rt.CaseRand(9, idx)
 		rt.Case()
 		if idx%16 == 3 {
 			windowedConcurrent(idx, r)
+		} else if idx%16 == 7 {
+			admissionInsideRelease(idx, r)
 		} else if idx%8 == 1 {
 			simultaneousCase(t, idx, r)
 		} else if idx%4 == 0 {
